@@ -44,7 +44,9 @@ def incoming_request(dg, user, auth, priv):
     zeroed = None
     if off and off[1] - off[0] == 12:
         zeroed = dg[: off[0]] + b"\x00" * 12 + dg[off[1] :]
-    req = {"op": "usm.incoming", "creds": creds_json(user, auth, priv), "msg": fields, "zeroed": zeroed.hex() if zeroed is not None else None}
+    # the model derives the MAC input from the datagram itself (reset_raw_digest over the x690 mirror);
+    # `mac_input` ties the MAC oracle below to the octets it was computed over
+    req = {"op": "usm.incoming", "creds": creds_json(user, auth, priv), "msg": fields, "datagram": bytes(dg).hex(), "mac_input": zeroed.hex() if zeroed is not None else None}
     eid = bytes(m["engine_id"])
     if auth and zeroed is not None:
         req["mac"] = U.hmac96(auth[0], U.localise(auth[0], auth[1], eid), zeroed).hex()
